@@ -233,6 +233,57 @@ impl<'tcx> Ex<'tcx> {
         }
     }
 
+    /// Function pointers stored inside a constant allocation: `[[byte offset, "def path"], ..]` for every pointer-sized slot whose
+    /// provenance is a function (`const TABLE: [fn(..); N] = [f, g, h]`).
+    fn alloc_fnptrs(&self, v: &ConstValue, ty: Ty<'tcx>) -> Option<String> {
+        let tcx = self.tcx;
+        let (alloc_id, start, size) = match v {
+            ConstValue::Indirect { alloc_id, offset } => {
+                let size = tcx
+                    .layout_of(TypingEnv::fully_monomorphized().as_query_input(ty))
+                    .ok()?
+                    .size
+                    .bytes_usize();
+                (*alloc_id, offset.bytes_usize(), size)
+            }
+            ConstValue::Scalar(rustc_middle::mir::interpret::Scalar::Ptr(ptr, _)) => {
+                if let ty::Ref(_, inner, _) = ty.kind() {
+                    let (prov, off) = ptr.prov_and_relative_offset();
+                    let size = tcx
+                        .layout_of(TypingEnv::fully_monomorphized().as_query_input(*inner))
+                        .ok()?
+                        .size
+                        .bytes_usize();
+                    (prov.alloc_id(), off.bytes_usize(), size)
+                } else {
+                    return None;
+                }
+            }
+            _ => return None,
+        };
+        let ga = tcx.global_alloc(alloc_id);
+        let m = match ga {
+            rustc_middle::mir::interpret::GlobalAlloc::Memory(m) => m,
+            _ => return None,
+        };
+        let a = m.inner();
+        let mut out: Vec<String> = Vec::new();
+        for (off, prov) in a.provenance().ptrs().iter() {
+            let o = off.bytes_usize();
+            if o < start || o >= start + size {
+                continue;
+            }
+            if let rustc_middle::mir::interpret::GlobalAlloc::Function { instance, .. } = tcx.global_alloc(prov.alloc_id()) {
+                out.push(format!("[{},{}]", o - start, esc(&tcx.def_path_str(instance.def_id()))));
+            }
+        }
+        if out.is_empty() {
+            None
+        } else {
+            Some(format!("[{}]", out.join(",")))
+        }
+    }
+
     fn konst(&self, c: &ConstOperand<'tcx>) -> String {
         let tcx = self.tcx;
         let ty = c.const_.ty();
@@ -271,11 +322,13 @@ impl<'tcx> Ex<'tcx> {
                 let bytes = self
                     .alloc_bytes(&v, ty)
                     .map_or("null".to_string(), |h| format!("\"{}\"", h));
+                let fnptrs = self.alloc_fnptrs(&v, ty).unwrap_or("null".to_string());
                 format!(
-                    "{{\"k\":\"val\",\"ty\":{},\"bytes\":{},\"name\":{},\"dbg\":{}}}",
+                    "{{\"k\":\"val\",\"ty\":{},\"bytes\":{},\"name\":{},\"fnptrs\":{},\"dbg\":{}}}",
                     tys,
                     bytes,
                     name,
+                    fnptrs,
                     esc(&format!("{:?}", v).chars().take(120).collect::<String>())
                 )
             }
